@@ -146,3 +146,18 @@ def lookalike_variants(text, rng, positions=None, count=6):
         out.append(text[0] + lowbyte_lookalike(text[1], k=0) + text[2:])  # the x of the prefix
         out.append(lowbyte_lookalike("0", k=0) + text[1:])
     return out
+
+
+def model_over_dumps(ctx, dumps, fmt, label, timeout=1800):
+    """evaluate `fmt % <Coq term of serde_json's parse>` for every document whose json.dump succeeded; None elsewhere (a document
+    the dump op cannot render is then judged by the property predicate alone)"""
+    from gen import txgen
+    idx = [i for i, du in enumerate(dumps) if du.tag == "ok" and du.fields]
+    res = ctx.model([fmt % txgen.coq_json(dumps[i].fields[0].decode()) for i in idx], label=label, timeout=timeout)
+    out = [None] * len(dumps)
+    for i, m in zip(idx, res):
+        out[i] = m
+    skipped = len(dumps) - len(idx)
+    if skipped:
+        ctx.note("%s: json.dump failed for %d of %d documents; those are judged without the model" % (label, skipped, len(dumps)))
+    return out
